@@ -2,7 +2,7 @@
 # usage: tools/recheck_seed.sh <seed-name> <prop> [props...]  -- re-run checks against a stored seeded change
 set -u
 name=$1; shift
-wt=/tmp/mut/re_$name
+wt=${RECHECK_WT:-/tmp/mut/re_$name}   # RECHECK_WT: one fixed path for a series of seeds, so that the cargo target and the Coq mirror of that path are reused
 git -C /repo worktree add -q --detach $wt HEAD || exit 1
 git -C $wt apply /verif/seeded/$name/patch.diff || { git -C /repo worktree remove --force $wt; exit 1; }
 for p in "$@"; do
